@@ -19,6 +19,7 @@ type Clause struct {
 	Props []string
 	Label string
 	Line  int
+	Lemma bool // loop K lemma: a trusted lemma instance about the current iteration's values, assumed at the loop head
 }
 
 type SpecFunc struct {
@@ -28,6 +29,10 @@ type SpecFunc struct {
 	Body   Expr
 	Text   string
 	Pkg    string
+	// Prefix: the function of a slice depends only on its first k elements ("prefix k": k is the named
+	// int parameter; "prefix len": the slice's own length). The generator then relates two applications
+	// on slices whose first k elements coincide (extensionality, part of the function's declaration).
+	Prefix string
 }
 
 type Axiom struct {
@@ -171,6 +176,10 @@ func (cs *ContractSet) parseContractFile(file, pkgPath string) error {
 				return errf(fmt.Errorf("bad spec func"))
 			}
 			sf := &SpecFunc{Name: strings.TrimSpace(r[:op]), Ret: strings.TrimSpace(r[cp+1:]), Text: it.text}
+			if i := strings.Index(sf.Ret, " prefix "); i >= 0 {
+				sf.Prefix = strings.TrimSpace(sf.Ret[i+8:])
+				sf.Ret = strings.TrimSpace(sf.Ret[:i])
+			}
 			for _, p := range strings.Split(r[op+1:cp], ",") {
 				p = strings.TrimSpace(p)
 				if p == "" {
@@ -295,18 +304,19 @@ func (cs *ContractSet) parseContractFile(file, pkgPath string) error {
 				cur.NoPanicPr = props
 			case "loop":
 				f := strings.Fields(rest)
-				if len(f) < 3 || f[1] != "invariant" {
-					return errf(fmt.Errorf("loop K invariant EXPR"))
+				if len(f) < 3 || (f[1] != "invariant" && f[1] != "lemma") {
+					return errf(fmt.Errorf("loop K invariant|lemma EXPR"))
 				}
 				k, err := strconv.Atoi(f[0])
 				if err != nil {
 					return errf(err)
 				}
-				txt := strings.TrimSpace(rest[strings.Index(rest, "invariant")+len("invariant"):])
+				txt := strings.TrimSpace(rest[strings.Index(rest, f[1])+len(f[1]):])
 				c, err := mkClause(txt)
 				if err != nil {
 					return err
 				}
+				c.Lemma = f[1] == "lemma"
 				cur.Loops[k] = append(cur.Loops[k], c)
 			case "trusted":
 				cur.Trusted = strings.Trim(rest, `"`)
@@ -367,6 +377,10 @@ func qualifyKey(key, pkg string) string {
 			t = pkg + "." + t
 		}
 		return "(" + t + ")." + k[i+1:]
+	}
+	if strings.HasPrefix(key, "functype ") {
+		// calls through a value of the named function type (e.g. functional options): `self` is the value
+		return "functype " + pkg + "." + strings.TrimSpace(key[9:])
 	}
 	if strings.HasPrefix(key, "(*") {
 		return "(*" + pkg + "." + key[2:]
